@@ -305,6 +305,19 @@ def workload(tier, seed, scale=1.0):
     for k in (0, 1, 2, 3):
         for fn in ('irange', 'single_i', 'uni_i', 'range_i'):
             add(fn, b'', 'z', [-(1 << k), 1 << k], ('sym-low', fn, k))
+    # multi-digit bounds with a scripted FIRST candidate that shares the bound's leading digit(s) and lies just below it (the
+    # comparison with the bound must look past the top digit), or equals / exceeds it by one
+    for b in ((1 << 64) + 1, (1 << 64) + 5, (3 << 64) + 7, (1 << 128) + 3, (1 << 128) + (1 << 64), (1 << 192) + 2, rand_digits(rnd, 2, 0), rand_digits(rnd, 3, 0)):
+        bits = b.bit_length()
+        nw = (bits + 31) // 32
+        for cand in (b - 1, b - 2, (b >> 64) << 64, ((b >> 64) << 64) + 1, b, b + 1, b >> 1):
+            if cand < 0 or cand.bit_length() > bits:
+                continue
+            script = cand.to_bytes(4 * nw, 'little')
+            add('below', script, 'c', [b], ('lead-tie', ndig(b), cand < b))
+            add('urange', script, 'c', [5, 5 + b], ('lead-tie-range', ndig(b), cand < b))
+            add('irange', script, 'z', [-3, b - 3], ('lead-tie-irange', ndig(b), cand < b))
+            add('uni_i', script, 'c', [-b, 0], ('lead-tie-uni', ndig(b), cand < b))
     # width-1 and equal-bounds inclusive ranges
     for x in (0, 1, -1, 5, -5, 1 << 64, -(1 << 64)):
         add('uni_i_inc', b'', 'c', [x, x], ('inc-eq',))
